@@ -175,6 +175,7 @@ def _patch_unescape(cp):
     if not pestenv.REAL:
         un.int = symx.sym_int
         un.chr = symx.sym_chr
+        un.ord = symx.sym_ord
         if isinstance(getattr(un, "HEX_DIGITS", None), frozenset):
             un.HEX_DIGITS = pestenv.SymAwareSet(un.HEX_DIGITS)
     return cp
@@ -326,6 +327,9 @@ def texts_for(prop: str, tier: str, seed: int):
             out.append((f"fam/{m['id']}/replace@{off}", [t[:off], 1, t[off + 1 :]]))
             out.append((f"fam/{m['id']}/insert@{off}", [t[:off], 1, t[off:]]))
     if prop == "C11":
+        # (the u32-edge slots stay with C10: with the default optimizer a{4294967295} makes the unroll pass build
+        #  4.3e9 copies - a worker dies of memory exhaustion; resource use is outside the claim, DESIGN.md section 7)
+        out = [(n, p) for n, p in out if "rep-u32" not in n]
         # every truncation, bare and followed by one arbitrary character
         srcs = [pre + "ab" + suf for _n, pre, suf in SLOTS[:20]] + SMALL
         seen = set()
